@@ -7,6 +7,8 @@ package props
 import (
 	"encoding/json"
 	"fmt"
+	servertypes "github.com/cosmos/cosmos-sdk/server/types"
+	"github.com/cosmos/cosmos-sdk/x/crisis"
 	"math/big"
 	"pgregory.net/rapid"
 	"sort"
@@ -146,10 +148,28 @@ type World struct {
 	Time   time.Time
 }
 
-func newApp(db dbm.DB) (*c4eapp.App, appparams.EncodingConfig) {
+func newApp(db dbm.DB) (*c4eapp.App, appparams.EncodingConfig) { return newAppWith(db, NodeFlags{}) }
+
+// NodeFlags are start-up options of a node that are local to it, i.e. not part of the replicated
+// input: whether x/crisis asserts the registered invariants at genesis
+// (--x-crisis-skip-assert-invariants) and how often it asserts them afterwards (--inv-check-period).
+type NodeFlags struct {
+	SkipGenesisInvariants bool `json:"skip_genesis_invariants,omitempty"`
+	InvCheckPeriod        uint `json:"inv_check_period,omitempty"`
+}
+
+type nodeAppOptions map[string]interface{}
+
+func (o nodeAppOptions) Get(k string) interface{} { return o[k] }
+
+func newAppWith(db dbm.DB, f NodeFlags) (*c4eapp.App, appparams.EncodingConfig) {
 	enc := c4eapp.MakeEncodingConfig()
-	a := c4eapp.New(log.NewNopLogger(), db, nil, true, map[int64]bool{}, "/nonexistent-verif-home", 0,
-		enc, simapp.EmptyAppOptions{})
+	var opts servertypes.AppOptions = simapp.EmptyAppOptions{}
+	if f.SkipGenesisInvariants {
+		opts = nodeAppOptions{crisis.FlagSkipGenesisInvariants: true}
+	}
+	a := c4eapp.New(log.NewNopLogger(), db, nil, true, map[int64]bool{}, "/nonexistent-verif-home", f.InvCheckPeriod,
+		enc, opts)
 	return a, enc
 }
 
